@@ -61,6 +61,7 @@ type wsSlot struct {
 	lastOK bool   // validity of the content that encoding carried
 	lastT  bool   // ... and whether its signature 0 carried the flipped bit (and the validity without it)
 	lastP  bool
+	born   int       // content identity the object was constructed with
 	cver   int       // content identity: a fresh number whenever protected bytes or payload change; travels through encode / decode
 	lastCv int       // ... of the last encoding
 	csigs  []*wsCsig // countersignatures attached to the object (at most one full, one abbreviated)
@@ -228,7 +229,7 @@ func checkWorkspaceFor(c wsCase, only string) error {
 				stats.Class("ws/opaque-signers")
 			}
 			nextContent++
-			slots = append(slots, &wsSlot{m: constructLib(&spec), spec: &spec, ss: ss, vs: vs, tmpl: true, cver: nextContent})
+			slots = append(slots, &wsSlot{m: constructLib(&spec), spec: &spec, ss: ss, vs: vs, tmpl: true, cver: nextContent, born: nextContent})
 			stats.Class("ws/new")
 		case "copy-template":
 			// an unsigned message used as a template: value copies, each signed on its own
@@ -706,6 +707,41 @@ func checkWorkspaceFor(c wsCase, only string) error {
 				}
 			}
 			stats.Class("ws/scribble")
+		case "verify-refused":
+			s := pick(op.A)
+			if s == nil || !s.signed || len(s.vs) == 0 {
+				continue
+			}
+			if err := wsVerifyRefused(step, op, s, slots, fail); err != nil {
+				return err
+			}
+		case "decode-refused":
+			src, dst := pick(op.A), pick(op.B)
+			if src == nil || src.last == nil || dst == nil {
+				continue
+			}
+			if err := wsDecodeRefused(step, op, src, dst, slots, fail); err != nil {
+				if err == errStopHistory {
+					return nil
+				}
+				return err
+			}
+		case "sign-refused":
+			s := pick(op.A)
+			if s == nil || s.signed || len(s.ss) == 0 {
+				continue
+			}
+			if err := wsSignRefused(step, op, s, fail); err != nil {
+				return err
+			}
+		case "countersign-refused":
+			s := pick(op.A)
+			if s == nil || !s.signed {
+				continue
+			}
+			if err := wsCountersignRefused(step, op, s, slots, fail); err != nil {
+				return err
+			}
 		case "churn":
 			reenterLibrary()
 			stats.Class("ws/churn")
@@ -776,7 +812,8 @@ func genWorkspace(t *rapid.T) wsCase {
 		c.Ops = append(c.Ops, wsOp{Op: "encode"}, wsOp{Op: "new", A: 1}, wsOp{Op: "sign", A: 1}, wsOp{Op: "encode", A: 1}, wsOp{Op: "decode", A: 0}, wsOp{Op: "decode", A: 1})
 	}
 	names := []string{"new", "sign", "sign", "encode", "encode", "decode", "decode", "decode-into", "decode-into", "edit-protected", "edit-payload", "edit-unprotected",
-		"tamper", "tamper", "re-sign", "scribble", "churn", "encode", "decode", "copy-redecode", "copy-redecode", "copy-template", "copy-template", "countersign", "countersign", "countersign", "detach-countersign", "detach-countersign", "detach-signature"}
+		"tamper", "tamper", "re-sign", "scribble", "churn", "encode", "decode", "copy-redecode", "copy-redecode", "copy-template", "copy-template", "countersign", "countersign", "countersign", "detach-countersign", "detach-countersign", "detach-signature",
+		"verify-refused", "verify-refused", "decode-refused", "decode-refused", "sign-refused", "countersign-refused", "new"}
 	k := rapid.IntRange(4, 24).Draw(t, "nops")
 	for i := 0; i < k; i++ {
 		c.Ops = append(c.Ops, wsOp{Op: rapid.SampledFrom(names).Draw(t, "op"), A: rapid.IntRange(0, 7).Draw(t, "a"), B: rapid.IntRange(0, 7).Draw(t, "b")})
@@ -817,5 +854,9 @@ func TestC07_Workspace(t *testing.T) { runWorkspace(t, "C07") }
 func TestC09_Workspace(t *testing.T) { runWorkspace(t, "C09") }
 func TestC10_Workspace(t *testing.T) { runWorkspace(t, "C10") }
 func TestC19_Workspace(t *testing.T) { runWorkspace(t, "C19") }
+func TestC05_Workspace(t *testing.T) { runWorkspace(t, "C05") }
+func TestC11_Workspace(t *testing.T) { runWorkspace(t, "C11") }
+func TestC18_Workspace(t *testing.T) { runWorkspace(t, "C18") }
+func TestC20_Workspace(t *testing.T) { runWorkspace(t, "C20") }
 
 var _ = rc.Hex(nil)
